@@ -195,6 +195,11 @@ fn(WS + ".handle",
        ("C07.err-idle.ws", "implies(isinstance(event, Request) and not self.g_app_started, trace_any('sent', 'x', isinstance(x, StreamClosed)))", "C07"),
        ("C03.ws.closed-delivers-nothing", "implies(old(self.closed), n_emitted('puts') == 0 and n_emitted('sent') == 0)", "C03"),
        # C11: the disconnect code tells the application what happened
+       # C03 "every request produces exactly one access-log record", for a WebSocket request whose
+       # client leaves before the application has answered it: the application can no longer answer
+       # (its sends are ignored from here on), so the record has to exist when the close has been
+       # handled (HTTPStream writes it there; finding F3b: WSStream writes none)
+       ("C03.ws.access.on-close", "implies(isinstance(event, StreamClosed) and not old(self.closed) and self.g_app_started and old(self.state) in (ASGIWebsocketState.HANDSHAKE, ASGIWebsocketState.RESPONSE), self.g_access >= 1)", "C03"),
        # (two clauses: the client-initiated close is finding F11 and is recorded against .code only;
        # own close / lost connection must keep holding)
        ("C11.code", "implies(isinstance(event, StreamClosed) and not old(self.closed) and self.g_app_started and old(self.g_remote_closed), n_emitted('puts') == 1 and emitted('puts')[0]['type'] == 'websocket.disconnect' "
